@@ -141,6 +141,21 @@ Example ex_same_identity_twice :
             count (ESdkRec 4) (hist s) = 1 /\ count (ESdkRec 5) (hist s) = 1.
 Proof. eexists. split; [vm_compute; reflexivity|]. vm_compute. repeat split; reflexivity. Qed.
 
+(** Two overlapping SetMeterProvider calls: the one that loses the Once (thread 3) cannot return
+    while the winner (thread 2) is still handing over -- it waits at [IOnce] -- so "installation
+    returned" ([EInstallRet], whichever call logs it first) always means the hand-over is complete. *)
+Definition ex4_prog : nat -> op := prog_of [OpMeter 0; OpInst 0; OpInstall; OpInstall; OpRecord 1].
+Example ex_second_installer_waits :
+  exists s, run false ex4_prog init [0;0;0; 1;1;1; 2;2;2;2; 3] = Some s /\
+            pcs s 3 = IOnce /\ step false ex4_prog s 3 = None /\ inb EInstallRet (hist s) = false /\
+            forwards s 1 = false /\
+            exists s', run false ex4_prog s [2;2;2;2;2;2;2; 3; 4;4] = Some s' /\
+                       count EInstallRet (hist s') = 2 /\ count (ESdkRec 4) (hist s') = 1.
+Proof.
+  eexists. split; [vm_compute; reflexivity|]. repeat (split; [vm_compute; reflexivity|]).
+  eexists. split; [vm_compute; reflexivity|]. vm_compute. split; reflexivity.
+Qed.
+
 (** The deadlock-freedom theorem talks about real waiting: here thread 1 waits for meter 0's lock. *)
 Example ex_blocked_thread :
   exists s, run false ex2_prog init [0;0;0; 2;2;2;2;2; 1] = Some s /\
